@@ -237,6 +237,9 @@ func genVariants(rng *rand.Rand, full *listing, m *vecModel, ids *idGen, n int) 
 		default:
 			o.K = 1 + rng.IntN(nl+2)
 		}
+		if rng.IntN(24) == 0 {
+			o.K = []int{math.MaxInt32, math.MaxInt64, math.MinInt64, math.MinInt32}[rng.IntN(4)] // all of them mean "everything"
+		}
 		switch rng.IntN(8) {
 		case 0, 1:
 			if nl > 0 { // exactly a reported score: the documented <= boundary
@@ -389,4 +392,33 @@ func sortedKeys(m map[uint32]bool) []uint32 {
 	}
 	sort.Slice(out, func(i, j int) bool { return out[i] < out[j] })
 	return out
+}
+
+// checkReexecute: a search object executed a second time, unchanged, gives the same answer (same ids with the same
+// score bits; the order inside exact ties is not compared). State kept between two Execute calls of one builder
+// (caches, consumed buffers, pooled filters) shows up here.
+func checkReexecute(rep reporter, tag string, b comet.VectorSearch, first []comet.VectorResult) {
+	second, err := b.Execute()
+	if err != nil {
+		rep(tag+".reexecute-differs", "the second Execute of the same search object failed: "+err.Error())
+		return
+	}
+	if len(second) != len(first) {
+		rep(tag+".reexecute-differs", fmt.Sprintf("the second Execute of the same search object returned %d results, the first %d", len(second), len(first)))
+		return
+	}
+	want := map[uint32]uint32{}
+	for _, x := range first {
+		want[x.GetId()] = math.Float32bits(x.GetScore())
+	}
+	for i, x := range second {
+		if bits, ok := want[x.GetId()]; !ok || bits != math.Float32bits(x.GetScore()) {
+			rep(tag+".reexecute-differs", fmt.Sprintf("the second Execute of the same search object differs at rank %d: id %d score %g", i, x.GetId(), x.GetScore()))
+			return
+		}
+		if math.Float32bits(first[i].GetScore()) != math.Float32bits(x.GetScore()) {
+			rep(tag+".reexecute-differs", fmt.Sprintf("the second Execute of the same search object has score %g at rank %d, the first had %g", x.GetScore(), i, first[i].GetScore()))
+			return
+		}
+	}
 }
